@@ -31,6 +31,13 @@ PLACEMENT_SNIPPETS = {
     "two-stars": ["*zz_a, *zz_b = [1, 2]"],
     "two-stars-for": ["for *zz_a, *zz_b in [[1, 2]]:", "    pass"],
     "two-stars-nested": ["zz_c, (*zz_a, *zz_b) = 1, [1, 2]"],
+    # a star-free sub-pattern, an attribute, a subscript between / inside the two stars; list patterns; chained
+    "two-stars-around-nested": ["*zz_a, (zz_c, zz_d), *zz_b = [1, (2, 3), 4]"],
+    "two-stars-starred-nested": ["*(zz_c, zz_d), *zz_b = [1, 2, 3]"],
+    "two-stars-list": ["[*zz_a, zz_c, *zz_b] = [1, 2, 3]"],
+    "two-stars-for-nested": ["for *zz_a, [zz_c], *zz_b in [[1, [2], 3]]:", "    pass"],
+    "two-stars-chained": ["zz_c = *zz_a, *zz_b = [1, 2]"],
+    "two-stars-deep": ["zz_c, (zz_d, (*zz_a, zz_e, *zz_b)) = 1, (2, [3, 4, 5])"],
 }
 
 
@@ -145,7 +152,8 @@ def all_injections(src, rng=None, per_kind=None):
             out.append(("continue-outside", i, "\n".join(inject_stmt(lines, i, ["continue"])) + "\n"))
         if near != "def":
             out.append(("return-outside", i, "\n".join(inject_stmt(lines, i, ["return 1"])) + "\n"))
-        for kind in ("two-stars", "two-stars-for", "two-stars-nested"):
+        for kind in ("two-stars", "two-stars-for", "two-stars-nested", "two-stars-around-nested", "two-stars-starred-nested",
+                     "two-stars-list", "two-stars-for-nested", "two-stars-chained", "two-stars-deep"):
             out.append((kind, i, "\n".join(inject_stmt(lines, i, PLACEMENT_SNIPPETS[kind])) + "\n"))
     return out
 
